@@ -128,6 +128,8 @@ class RefDEVS:
 
     # -- lifecycle commands at quiescence -----------------------------------
     def initialize(self, rep=None):
+        if rep is None:
+            rep = self.p["rep"]         # the harness passes the program's own settings
         if rep is not None:
             self.start, self.warmup_period, self.length = rep
             self.end = self.start + self.length
